@@ -171,11 +171,19 @@ func (k *Sink) Sync() error {
 	if e.observing {
 		return nil
 	}
+	// a sync makes durable what had been written when it began; records that
+	// arrive while it is in flight are not covered by it
+	k.mu.Lock()
+	covered := len(k.Recs)
+	k.mu.Unlock()
+	if e.parkAudit {
+		e.S.Park("audit", "sink.Sync", nil, nil, nil)
+	}
 	k.mu.Lock()
 	fs := k.failSync
 	k.failSync = false
 	if !fs {
-		for i := range k.Recs {
+		for i := 0; i < covered && i < len(k.Recs); i++ {
 			k.Recs[i].Synced = true
 		}
 	}
@@ -440,6 +448,24 @@ func (e *Env) MakeCallers(n int, patterns []string) {
 		c.LegacyCap = e.T.Bool(1, 5)
 		e.Callers = append(e.Callers, c)
 	}
+}
+
+// redrawRules gives a restricted caller a fresh rule set (possibly empty).
+func (e *Env) redrawRules(c *Caller) {
+	pats := append(append([]string{}, patternPool...), e.derivedPatterns()...)
+	nr := e.T.Range(0, 3)
+	c.Rules = nil
+	for j := 0; j < nr; j++ {
+		var r model.Rule
+		for k, na := 0, e.T.Range(1, 3); k < na; k++ {
+			r.Actions = append(r.Actions, allActions[e.T.Choice(len(allActions))])
+		}
+		for k, np := 0, e.T.Range(1, 2); k < np; k++ {
+			r.Patterns = append(r.Patterns, pats[e.T.Choice(len(pats))])
+		}
+		c.Rules = append(c.Rules, r)
+	}
+	c.dbc = db.Caller{Principal: c.principal(), Permissions: toACL(c.Rules)}
 }
 
 // ---- identity service ----
